@@ -59,6 +59,28 @@ def Def(name, params, body, decorators=(), annots=()):
     return {"k": "def", "name": name, "params": params, "body": list(body), "decorators": list(decorators), "annots": list(annots)}
 
 
+def T(x):
+    """target pattern: a name, or a list of patterns (tuple target)"""
+    return {"k": "tname", "id": x} if isinstance(x, str) else x
+
+
+def TT(*elts, **kw):
+    return {"k": "ttuple", "elts": [T(e) for e in elts], "brackets": kw.get("brackets", "()")}
+
+
+def TStar(x):
+    return {"k": "tstar", "elt": T(x)}
+
+
+def AsgX(pats, value):
+    """chained assignment  pat1 = pat2 = ... = value"""
+    return {"k": "assignx", "pats": [T(x) for x in pats], "value": value}
+
+
+def Walrus(name, value):
+    return {"k": "walrus", "id": name, "value": value}
+
+
 def Ret(v):
     return {"k": "return", "value": v}
 
@@ -164,6 +186,46 @@ def catalogue():
     add("def-param-then-top-read", Def("tb_f", P(pos=["fr_reuset"]), [Ret(N("fr_reuset"))]), call_f, Asg(["tb_y"], N("fr_reuset")))
     add("lambda-param-then-top-read", Asg(["tb_l"], Lam(P(pos=["fr_reuseu"]), N("fr_reuseu"))), Asg(["tb_r"], Call(N("tb_l"), C())),
         Asg(["tb_y"], N("fr_reuseu")))
+    # --- Python's binding forms, each followed by reads of EVERY name it binds: in the same function, in a
+    # nested function (closure); at the top of the block the harness also reads every bound name from the
+    # template body and from a top-level def called by name, under strict_undefined
+    def reads(*names):
+        return [Def("tb_rd", P(), [Ret(Op(*[N(n) for n in names]))]), Asg(["tb_rr"], Call(N("tb_rd")))]
+
+    def in_def(stmts, names):
+        return [Def("tb_f", P(), stmts + [Ret(Op(*[N(n) for n in names]))]), Asg(["tb_r"], Call(N("tb_f")))]
+    add("chain2", AsgX(["tb_a", "tb_b"], N("fr_val")), *reads("tb_a", "tb_b"))
+    add("chain3", AsgX(["tb_a", "tb_b", "tb_c"], N("fr_val")), *reads("tb_a", "tb_b", "tb_c"))
+    add("chain-tuple", AsgX(["tb_a", TT("tb_b", "tb_c")], N("fr_pair")), *reads("tb_a", "tb_b", "tb_c"))
+    add("chain2-in-def", *in_def([AsgX(["nl_a", "nl_b"], N("fr_val"))], ["nl_a", "nl_b"]))
+    add("chain3-in-def", *in_def([AsgX(["nl_a", "nl_b", "nl_c"], N("fr_val"))], ["nl_a", "nl_b", "nl_c"]))
+    add("target-list", AsgX([TT("tb_a", "tb_b", brackets="[]")], N("fr_pair")), *reads("tb_a", "tb_b"))
+    add("target-nested", AsgX([TT("tb_a", TT("tb_b", "tb_c"))], N("fr_nested")), *reads("tb_a", "tb_b", "tb_c"))
+    add("target-starred-mid", AsgX([TT("tb_a", TStar("tb_b"), "tb_c")], N("fr_iter")), *reads("tb_a", "tb_b", "tb_c"))
+    add("target-nested-in-def", *in_def([AsgX([TT("nl_a", TT("nl_b", TStar("nl_c")))], N("fr_nested"))], ["nl_a", "nl_b", "nl_c"]))
+    add("target-attr", AsgX([{"k": "tattr", "obj": N("fr_obj")}], N("fr_val")), Asg(["tb_a"], N("fr_obj")))
+    add("target-subscript", AsgX([{"k": "tsub", "obj": N("fr_map"), "index": N("fr_key")}], N("fr_val")), Asg(["tb_a"], N("fr_map")))
+    add("chain-attr-name", AsgX([{"k": "tattr", "obj": N("fr_obj")}, "tb_a"], N("fr_val")), *reads("tb_a"))
+    add("annassign", {"k": "annassign", "target": "tb_a", "hasvalue": True, "value": N("fr_val")}, *reads("tb_a"))
+    add("annassign-novalue-in-def", *in_def([{"k": "annassign", "target": "nl_a", "hasvalue": False, "value": C()}, Asg(["nl_a"], N("fr_val"))], ["nl_a"]))
+    add("walrus", Asg(["tb_a"], Op(Walrus("tb_w", N("fr_val")), N("tb_w"))), *reads("tb_a", "tb_w"))
+    add("walrus-in-if", {"k": "if", "test": Walrus("tb_w", N("fr_cond")), "body": [Asg(["tb_t"], N("tb_w"))], "orelse": []}, *reads("tb_w"))
+    add("walrus-in-comp", Asg(["tb_c"], Comp("list", [Walrus("tb_w", N("nl_comp"))], [Gen(["nl_comp"], N("fr_iter"))])), *reads("tb_c", "tb_w"))
+    add("walrus-in-def", *in_def([Asg(["nl_a"], Op(Walrus("nl_w", N("fr_val")), N("nl_w")))], ["nl_a", "nl_w"]))
+    add("walrus-in-lambda", Asg(["tb_l"], Lam(P(pos=["pa_lam"]), Op(Walrus("nl_w", N("pa_lam")), N("nl_w")))), Asg(["tb_r"], Call(N("tb_l"), C())))
+    add("for-nested-target", {"k": "withx", "form": "for", "ctx": N("fr_nestedpairs"), "pat": TT("tb_i", TT("tb_j", "tb_k")),
+                              "body": [Asg(["tb_x"], N("tb_k"))]}, *reads("tb_i", "tb_j", "tb_k", "tb_x"))
+    add("with-tuple-target", {"k": "withx", "form": "with", "ctx": N("fr_cmpair"), "pat": TT("tb_a", "tb_b"),
+                              "body": [Asg(["tb_in"], N("tb_b"))]}, *reads("tb_a", "tb_b", "tb_in"))
+    add("with-as-in-def", *in_def([{"k": "withx", "form": "with", "ctx": N("fr_cmpair"), "pat": TT("nl_a", "nl_b"), "body": [Asg(["nl_in"], N("nl_b"))]}],
+                                  ["nl_a", "nl_b", "nl_in"]))
+    add("import-dotted-as", {"k": "import", "names": ["tb_osp"], "form": "import os.path as tb_osp"}, *reads("tb_osp"))
+    add("import-two", {"k": "import", "names": ["tb_os", "tb_sys"], "form": "import os as tb_os, sys as tb_sys"}, *reads("tb_os", "tb_sys"))
+    add("from-import-two", {"k": "import", "names": ["tb_sep", "tb_ls"], "form": "from os import sep as tb_sep, linesep as tb_ls"}, *reads("tb_sep", "tb_ls"))
+    add("def-name-read", Def("tb_f", P(), [Ret(N("fr_indef"))]), *reads("tb_f"))
+    add("class", {"k": "class", "name": "tb_K", "bases": [N("fr_base")], "body": [Asg(["nl_m"], N("fr_inclass")), Asg(["nl_n"], N("nl_m"))]},
+        *reads("tb_K"))
+    add("class-in-def", *in_def([{"k": "class", "name": "nl_K", "bases": [], "body": [Asg(["nl_m"], N("fr_inclass"))]}], ["nl_K"]))
     # further statement forms: starred assignment, del, annotations of a def, a decorator on a def inside a def
     add("assign-starred", {"k": "assign", "targets": ["tb_a", "tb_b"], "value": N("fr_pair"), "starred": True})
     add("del", Asg(["tb_a"], N("fr_val")), {"k": "del", "target": "tb_a"})
@@ -211,6 +273,8 @@ def src_expr(e):
         if e.get("call") or (a and a[0]["k"] == "name" and role(a[0]["id"]) in ("fr_fn", "tb_f", "nl_g")):
             return "%s(%s)" % (src_expr(a[0]), ", ".join(src_expr(x) for x in a[1:]))
         return "(" + ", ".join(src_expr(x) for x in a) + ("," if len(a) == 1 else "") + ")"
+    if k == "walrus":
+        return "(%s := %s)" % (e["id"], src_expr(e["value"]))
     if k == "lambda":
         return "(lambda %s: %s)" % (src_params(e["params"]), src_expr(e["body"]))
     if k == "comp":
@@ -221,6 +285,22 @@ def src_expr(e):
         o, c = {"list": "[]", "set": "{}", "gen": "()"}[e["kind"]]
         return "%s%s %s%s" % (o, src_expr(e["elts"][0]), gens, c)
     raise MachineryError("expr kind %r" % k)
+
+
+def src_pat(t, top=True):
+    k = t["k"]
+    if k == "tname":
+        return t["id"]
+    if k == "tstar":
+        return "*" + src_pat(t["elt"], False)
+    if k == "tattr":
+        return src_expr(t["obj"]) + ".attr"
+    if k == "tsub":
+        return "%s[%s]" % (src_expr(t["obj"]), src_expr(t["index"]))
+    inner = ", ".join(src_pat(x, False) for x in t["elts"])
+    if t.get("brackets") == "[]":
+        return "[" + inner + "]"
+    return inner if top else "(" + inner + ")"
 
 
 def src_params(p, annots=()):
@@ -256,6 +336,19 @@ def src_block(ss, ind):
             out.append(pad + "%s = %s" % (tg(s["targets"]), src_expr(s["value"])))
         elif k == "del":
             out.append(pad + "del " + s["target"])
+        elif k == "assignx":
+            out.append(pad + " = ".join(src_pat(t) for t in s["pats"]) + " = " + src_expr(s["value"]))
+        elif k == "annassign":
+            out.append(pad + "%s: 'T'%s" % (s["target"], (" = " + src_expr(s["value"])) if s["hasvalue"] else ""))
+        elif k == "withx":
+            if s["form"] == "for":
+                out.append(pad + "for %s in %s:" % (src_pat(s["pat"]), src_expr(s["ctx"])))
+            else:
+                out.append(pad + "with %s as (%s):" % (src_expr(s["ctx"]), src_pat(s["pat"])))
+            out += src_block(s["body"], ind + 1)
+        elif k == "class":
+            out.append(pad + "class %s%s:" % (s["name"], ("(" + ", ".join(src_expr(b) for b in s["bases"]) + ")") if s["bases"] else ""))
+            out += src_block(s["body"], ind + 1)
         elif k == "augassign":
             out.append(pad + "%s += %s" % (s["target"], src_expr(s["value"])))
         elif k == "expr":
@@ -303,7 +396,7 @@ def src_block(ss, ind):
 def strip_form(obj):
     """the TLA+ side does not need the concrete import spelling"""
     if isinstance(obj, dict):
-        return {k: strip_form(v) for k, v in obj.items() if k not in ("form", "call", "starred")}
+        return {k: strip_form(v) for k, v in obj.items() if k not in ("form", "call", "starred", "brackets")}
     if isinstance(obj, list):
         return [strip_form(x) for x in obj]
     return obj
@@ -334,6 +427,11 @@ def symtable_sets(src):
     return free, bound
 
 
+class _Obj:
+    def __repr__(self):
+        return "<obj attr=%r>" % (getattr(self, "attr", None),)
+
+
 def value_for(name):
     import contextlib
     r = role(name)
@@ -343,6 +441,18 @@ def value_for(name):
         return [(1, 2), (3, 4)]
     if r == "fr_pair":
         return (5, 6)
+    if r == "fr_nested":
+        return (1, (2, 3))
+    if r == "fr_nestedpairs":
+        return [(1, (2, 3)), (4, (5, 6))]
+    if r == "fr_cmpair":
+        return contextlib.nullcontext((8, 9))
+    if r == "fr_obj":
+        return _Obj()
+    if r == "fr_map":
+        return {}
+    if r == "fr_base":
+        return object
     if r == "fr_cm":
         return contextlib.nullcontext(3)
     if r == "fr_exc":
@@ -384,22 +494,35 @@ def native_values(src, free, bound):
 
 
 def mako_values(src, free, bound):
+    """the block in a <% %> under strict_undefined; every bound name is then read (a) in the template body and
+    (b) inside a top-level def called by name from the body (which sees the body's assignments through the
+    context).  Returns ({name: value} of (a), template) or ('exc:..', template); (b) must equal (a)."""
     from mako.template import Template
-    got = {}
+    got, got2 = {}, {}
 
     def grab(**kw):
         got.update(kw)
         return ""
+
+    def grab2(**kw):
+        got2.update(kw)
+        return ""
     names = sorted(bound)
-    t = "<%\n" + src + "\n%>" + "".join("<%% __grab(%s=%s) %%>" % (n, n) if False else "" for n in names)
+    t = "".join("<%%def name=\"rd__%s()\">${__grab2(%s=%s)}</%%def>" % (n, n, n) for n in names)
+    t += "<%\n" + src + "\n%>\n"
     # each bound name is shown separately: a name deleted by Python (except ... as) is simply absent
     t += "".join("% try:\n${__grab(" + n + "=" + n + ")}\n% except NameError:\n% endtry\n" for n in names)
-    t = t.replace("%>%", "%>\n%")
+    t += "".join("% try:\n${rd__" + n + "()}\n% except NameError:\n% endtry\n" for n in names)
     env = {n: value_for(n) for n in free}
     env["__grab"] = grab
+    env["__grab2"] = grab2
     try:
         Template(t, strict_undefined=True).render_unicode(**env)
-        return {n: _simple(got[n]) for n in names if n in got}, t
+        direct = {n: _simple(got[n]) for n in names if n in got}
+        byname = {n: _simple(got2[n]) for n in names if n in got2}
+        if byname != direct:
+            return "exc:ByNameDefSees:%s" % sorted(set(direct.items()) ^ set(byname.items()), key=repr)[:2], t
+        return direct, t
     except Exception as e:  # noqa
         return "exc:%s:%s" % (type(e).__name__, str(e)[:80]), t
 
@@ -418,9 +541,12 @@ def part_pyscope(run):
         meta[pid] = "+".join(n for n, _ in parts)
     for item in cat:
         addprog([item])
-    for a in cat:
-        for b in cat:
-            addprog([a, b])
+    ncore = next(i for i, (n, _) in enumerate(cat) if n == "chain2")      # the binding-form shapes come after
+    partners = cat[:4] + [c for c in cat if c[0] in ("def-closure", "listcomp", "lambda", "try")]
+    for i, a in enumerate(cat):
+        for j, b in enumerate(cat):
+            if (i < ncore and j < ncore) or (i >= ncore and b in partners) or (j >= ncore and a in partners):
+                addprog([a, b])
     ntr = 2500 if run.thorough else 300
     for _ in range(ntr):
         addprog([run.rng.choice(cat) for _ in range(3)])
